@@ -516,6 +516,15 @@ func body(c *sched.Ctl, cs Case, v *ev.Verdict) {
 				}
 			}
 		}
+		if len(c.Pending()) == 0 {
+			for _, t := range m.fired {
+				if m.effective(t) {
+					fail("C14", "routine:retry-lost", "%s: the routine failed, the back-off answered and the interval has passed (context set, routine unchanged) but no retry happened", where)
+					return
+				}
+			}
+			m.fired = nil
+		}
 		if bo != nil {
 			if bo.nexts != m.expectNext || bo.resets != m.expectReset {
 				fail("C14", "routine:backoff-log", "%s: back-off saw %d NextBackOff and %d Reset calls; the machine implies %d and %d", where, bo.nexts, bo.resets, m.expectNext, m.expectReset)
